@@ -44,7 +44,14 @@ type c34Sc struct {
 	Fault   string `json:"fault"`
 	PanicAt int    `json:"panicAt"`
 	Post    string `json:"post"`
+	// the stream's Close / CloseWithError return an error
+	CloseErr bool `json:"closeErr"`
+	// client: the first connection dies after the request was written / a retry is permitted
+	ConnFault string `json:"connFault"`
+	RetryOK   bool   `json:"retryOK"`
 }
+
+func (s *c34Sc) viaClient() bool { return s.ConnFault != "none" && s.ConnFault != "" || s.RetryOK }
 
 type c34Exp struct {
 	Werr            bool `json:"werr"`
@@ -55,7 +62,13 @@ type c34Exp struct {
 	CloseFinal      int  `json:"closeFinal"`
 	CweFinal        int  `json:"cweFinal"`
 	CweErr          bool `json:"cweErr"`
+	CerrW           bool `json:"cerrW"`
+	DoOK            bool `json:"doOK"`
+	Attempts        int  `json:"attempts"`
 }
+
+// mustFail: the write (Write + Flush, or Do) has to report an error
+func (e *c34Exp) mustFail() bool { return e.Werr || e.CerrW }
 
 type c34Vec struct {
 	Sc       c34Sc  `json:"sc"`
@@ -65,8 +78,15 @@ type c34Vec struct {
 
 func (v *c34Vec) String() string {
 	s := v.Sc
-	return fmt.Sprintf("%s/%s L=%d reads=%v eofData=%v decl=%s closer=%s fault=%s panicAt=%d post=%s",
-		s.Owner, s.Kind, s.L, s.Reads, s.EofData, s.Decl, s.Closer, s.Fault, s.PanicAt, s.Post)
+	x := ""
+	if s.CloseErr {
+		x += " closeErr"
+	}
+	if s.viaClient() {
+		x += fmt.Sprintf(" connFault=%s retryOK=%v", s.ConnFault, s.RetryOK)
+	}
+	return fmt.Sprintf("%s/%s L=%d reads=%v eofData=%v decl=%s closer=%s fault=%s panicAt=%d post=%s%s",
+		s.Owner, s.Kind, s.L, s.Reads, s.EofData, s.Decl, s.Closer, s.Fault, s.PanicAt, s.Post, x)
 }
 
 // ---------------------------------------------------------------- instrumented stream
@@ -84,6 +104,16 @@ type c34Core struct {
 	cwe        int
 	cweNonNil  bool
 	readAfterC int
+	closeErr   bool // Close / CloseWithError return an error
+}
+
+var errC34Close = errors.New("c34: the stream's close failed")
+
+func (c *c34Core) closeResult() error {
+	if c.closeErr {
+		return errC34Close
+	}
+	return nil
 }
 
 func (c *c34Core) Read(p []byte) (int, error) {
@@ -133,11 +163,11 @@ type c34Plain struct{ *c34Core }
 
 type c34Closer struct{ *c34Core }
 
-func (s c34Closer) Close() error { s.mu.Lock(); s.closes++; s.mu.Unlock(); return nil }
+func (s c34Closer) Close() error { s.mu.Lock(); s.closes++; s.mu.Unlock(); return s.closeResult() }
 
 type c34Both struct{ *c34Core }
 
-func (s c34Both) Close() error { s.mu.Lock(); s.closes++; s.mu.Unlock(); return nil }
+func (s c34Both) Close() error { s.mu.Lock(); s.closes++; s.mu.Unlock(); return s.closeResult() }
 func (s c34Both) CloseWithError(err error) error {
 	s.mu.Lock()
 	s.cwe++
@@ -145,7 +175,7 @@ func (s c34Both) CloseWithError(err error) error {
 		s.cweNonNil = true
 	}
 	s.mu.Unlock()
-	return nil
+	return s.closeResult()
 }
 
 const c34Pattern = "a\r\n0;\r\n\r\nZ9\x00f\n\rHTTP/1.1 200 OK\r\n\r\n5\r\nxy"
@@ -160,7 +190,7 @@ func c34Bytes(n, salt int) []byte {
 
 // c34NewStream builds the scenario's stream with every abstract byte scaled to `unit` bytes.
 func c34NewStream(v *c34Vec, unit, salt int) (*c34Core, io.Reader) {
-	core := &c34Core{content: c34Bytes(v.Sc.L*unit, salt), eofData: v.Sc.EofData, panicAt: v.Sc.PanicAt}
+	core := &c34Core{content: c34Bytes(v.Sc.L*unit, salt), eofData: v.Sc.EofData, panicAt: v.Sc.PanicAt, closeErr: v.Sc.CloseErr}
 	for _, r := range v.Sc.Reads {
 		core.reads = append(core.reads, r*unit)
 	}
@@ -394,9 +424,30 @@ func (o *c34Owner) write(bw *bufio.Writer) error {
 	return o.req.Write(bw)
 }
 
+// finish ends the owner's life after its post operation: whatever happened before, the owner is
+// finally reset and released, and the close counters are judged over that whole history.
+func (o *c34Owner) finish(op string) {
+	if op == "release" {
+		return
+	}
+	if o.resp != nil {
+		o.resp.Reset()
+		ReleaseResponse(o.resp)
+	} else {
+		o.req.Reset()
+		ReleaseRequest(o.req)
+	}
+}
+
 // post applies the owner's later operation; variant picks among equivalent replacing calls.
 func (o *c34Owner) post(op string, variant int) {
 	switch op {
+	case "closestream":
+		if o.resp != nil {
+			o.resp.CloseBodyStream() //nolint:errcheck
+		} else {
+			o.req.CloseBodyStream() //nolint:errcheck
+		}
 	case "release":
 		if o.resp != nil {
 			ReleaseResponse(o.resp)
@@ -490,10 +541,10 @@ func (r *c34Run) writeOnce(v *c34Vec, unit, limit, bufSize, salt int, judge bool
 			r.viol(v, bind, "panic-not-reported", unit, limit, "Read panicked but Response.Write returned %v", err)
 		}
 	}
-	if e.Werr && !failed {
+	if e.mustFail() && !failed {
 		r.viol(v, bind, "error-not-reported", unit, limit, "the write succeeded although the specification requires an error")
 	}
-	if !e.Werr && failed {
+	if !e.mustFail() && failed {
 		r.viol(v, bind, "unexpected-error", unit, limit, "the write failed: %v", err)
 	}
 	wantCwe := 0
@@ -501,10 +552,12 @@ func (r *c34Run) writeOnce(v *c34Vec, unit, limit, bufSize, salt int, judge bool
 		wantCwe = 1
 	}
 	r.checkCounts(v, bind, "after-write", unit, limit, core, e.CloseAfterWrite, wantCwe)
-	if _, _, nonNil := core.counts(); wantCwe == 1 && nonNil != (werr != nil) {
+	if _, _, nonNil := core.counts(); wantCwe == 1 && !v.Sc.CloseErr && nonNil != (werr != nil) {
 		r.viol(v, bind, "closewitherror-argument", unit, limit, "CloseWithError got a non-nil error: %v, the write returned %v", nonNil, werr)
 	}
 	o.post(v.Sc.Post, salt)
+	r.checkCounts(v, bind, "after-post", unit, limit, core, e.CloseFinal, e.CweFinal)
+	o.finish(v.Sc.Post)
 	r.checkCounts(v, bind, "at-end", unit, limit, core, e.CloseFinal, e.CweFinal)
 	r.checkWire(v, bind, unit, limit, fw.buf.Bytes(), core.content, failed)
 	return fw.buf.Bytes(), failed
@@ -711,6 +764,8 @@ func (r *c34Run) replaceOrReadAll(v *c34Vec, unit, salt int) {
 	}
 	r.checkCounts(v, bind, "after-write", unit, -1, core, e.CloseAfterWrite, map[bool]int{true: e.CweFinal, false: 0}[v.Sc.Kind == "readall"])
 	o.post(v.Sc.Post, salt)
+	r.checkCounts(v, bind, "after-post", unit, -1, core, e.CloseFinal, e.CweFinal)
+	o.finish(v.Sc.Post)
 	r.checkCounts(v, bind, "at-end", unit, -1, core, e.CloseFinal, e.CweFinal)
 }
 
